@@ -1,6 +1,9 @@
 package props
 
-import "bytes"
+import (
+	"bytes"
+	"fmt"
+)
 
 // scribbleRecall checks that a function returning a byte slice returns an independent value: the first result is
 // overwritten by the caller, a second call with the same arguments must still return the original bytes (a cached
@@ -59,4 +62,52 @@ func marshalHygiene(mk func() binMarshaler, other binMarshaler, deepEqual func(a
 		}
 	}
 	return "", ""
+}
+
+// Input guards: wire octets are handed to the library the way a caller that parses a received message hands them
+// over — as a sub-slice of a larger buffer, with the following octets of that buffer reachable as spare capacity.
+// The octets before, inside and after the sub-slice must be unchanged afterwards; otherwise whatever the caller
+// renders next from the same buffer is rendered from octets it never received.
+type inputGuard struct {
+	big, orig []byte
+	n         int
+}
+
+var inputGuards []inputGuard
+
+const guardPad = 8
+
+func guardIn(data []byte) []byte {
+	if data == nil {
+		return nil
+	}
+	big := make([]byte, guardPad+len(data)+guardPad)
+	for i := range big {
+		big[i] = 0xA5 ^ byte(i*7)
+	}
+	copy(big[guardPad:], data)
+	inputGuards = append(inputGuards, inputGuard{big: big, orig: append([]byte{}, big...), n: len(data)})
+	return big[guardPad : guardPad+len(data)]
+}
+
+func guardReset() { inputGuards = inputGuards[:0] }
+
+// guardCheck reports the first guarded buffer the library wrote to since the last call ("" if none) and forgets all.
+func guardCheck() string {
+	defer func() { inputGuards = inputGuards[:0] }()
+	for _, g := range inputGuards {
+		for i := range g.big {
+			if g.big[i] != g.orig[i] {
+				switch {
+				case i < guardPad:
+					return fmt.Sprintf("the call wrote %#02x over %#02x, %d octet(s) before the start of its %d-octet input in the caller's buffer", g.big[i], g.orig[i], guardPad-i, g.n)
+				case i < guardPad+g.n:
+					return fmt.Sprintf("the call changed octet %d of its %d-octet input from %#02x to %#02x", i-guardPad, g.n, g.orig[i], g.big[i])
+				default:
+					return fmt.Sprintf("the call wrote %#02x over %#02x, %d octet(s) past the end of its %d-octet input (the caller's buffer continues there: the next element of the received message)", g.big[i], g.orig[i], i-guardPad-g.n+1, g.n)
+				}
+			}
+		}
+	}
+	return ""
 }
